@@ -80,7 +80,17 @@ def regenerate_clients():
     return out.strip().splitlines()
 
 
+def regenerate_accesses():
+    ok, log = common.go_build(["accessgen"])
+    if not ok:
+        raise RuntimeError(log[-3000:])
+    rc, out = sh([os.path.join(HARNESS, "bin", "accessgen"), "/repo", os.path.join(COQ, "Conc/AccessGen.v")], timeout=300)
+    if rc != 0:
+        raise RuntimeError("accessgen failed:\n" + out[-3000:])
+    return out.strip().splitlines()[-1]
+
+
 def regenerate_all():
     info = {"ber": regenerate_ber(), "routes": regenerate_routes(), "dict": regenerate_dict(), "tags": regenerate_tags(),
-            "sites": regenerate_sites(), "clients": regenerate_clients()}
+            "sites": regenerate_sites(), "clients": regenerate_clients(), "accesses": regenerate_accesses()}
     return info
